@@ -1,12 +1,12 @@
 #!/bin/bash
-# Re-run every seeded change listed in seeded/rounds-4-14.txt (id, directory, properties to check) against
+# Re-run every seeded change listed in seeded/rounds-4-15.txt (id, directory, properties to check) against
 # the current /verif and /repo in two private lab copies, then collect the meta.json files and rebuild
 # seeded/README.md.   usage: checklib/reseed.sh   (about 2 hours on 16 cores)
 set -u
 V=/verif
 $V/checklib/lab.sh /tmp/lab >/dev/null; $V/checklib/lab.sh /tmp/lab2 >/dev/null
 rm -rf /tmp/lab/verif/seeded/R* /tmp/lab2/verif/seeded/R*
-awk 'NR%2==1' $V/seeded/rounds-4-14.txt > /tmp/seeds-a.txt; awk 'NR%2==0' $V/seeded/rounds-4-14.txt > /tmp/seeds-b.txt
+awk 'NR%2==1' $V/seeded/rounds-4-15.txt > /tmp/seeds-a.txt; awk 'NR%2==0' $V/seeded/rounds-4-15.txt > /tmp/seeds-b.txt
 run() { ( cd $1/verif; while read id dir props; do echo "=== $id ($props)"; python3 checklib/seedtest.py $id $dir $props 2>&1 | tail -14; done < $2; echo BATCH-DONE ) > $3 2>&1; }
 run /tmp/lab /tmp/seeds-a.txt /tmp/final-a.log &
 run /tmp/lab2 /tmp/seeds-b.txt /tmp/final-b.log &
